@@ -524,7 +524,8 @@ def _r018(ck, prog, cfg, meths):
             n += 1
             if ws is None:
                 ws = effects.write_sites(prog, f, writers)
-            before = [w for w in ws if b in f.reach([w["b"]])]
+            # evicting keys whose deadline has passed is the lazy-expiry purge (invisible by design, like get_value's purge)
+            before = [w for w in ws if b in f.reach([w["b"]]) and not str(w["what"]).startswith("evict_expired")]
             key = "%s:refusal(%s)#%d%s" % (f.short, kind, k, _tag(cfg))
             k += 1
             ck.check(not before, "R01.8", key,
@@ -561,9 +562,26 @@ def _r017(ck, prog, cfg):
         def start(f):
             st = sorted(bb for bb, t in f.calls() if is_callee(t, EXP + r"get\b"))
             return st[0] if st else 0
+        n += 1
+        # first choice: decision tables (path condition -> effects, outcome), which survive restructuring of the control flow
+        EFFECTS = (r"AHashMap::(insert|remove)$", r"HashMap::(insert|remove)$")
+        ta, ca = lib2.decision_table(fa, UNIT_ARITH, EFFECTS, start_block=start(fa))
+        tb, cb = lib2.decision_table(fb, UNIT_ARITH, EFFECTS, start_block=start(fb))
+        if ca and cb:
+            if ta == tb:
+                ck.ok("R01.7", "%s~%s%s" % (a, b, _tag(cfg)), "equal decision tables (%d rows)" % len(ta))
+            else:
+                only_a = sorted(ta - tb, key=str)[:2]
+                only_b = sorted(tb - ta, key=str)[:2]
+
+                def show(r):
+                    return "when {%s} -> %s %s" % (", ".join("%s=%s" % c for c in sorted(r[0])), list(r[1]) or "", r[2])
+                ck.bad("R01.7", "%s~%s%s" % (a, b, _tag(cfg)),
+                       "the seconds and milliseconds variants of the same command decide differently: only %s has %s; only %s has %s"
+                       % (a, [show(r) for r in only_a], b, [show(r) for r in only_b]), fb.where())
+            continue
         sa = lib2.skeleton(fa, start(fa), UNIT_ARITH)
         sb = lib2.skeleton(fb, start(fb), UNIT_ARITH)
-        n += 1
         if sa == sb:
             ck.ok("R01.7", "%s~%s%s" % (a, b, _tag(cfg)), "equal decision skeletons (%d chars)" % len(sa))
         else:
